@@ -176,7 +176,7 @@ def _run_real(cases, p, seed):
     while start < len(cases) and guard < 4 * len(cases) + 4:
         guard += 1
         chunk = cases[start:end]
-        res = fm.run(p, _job, chunk, seed=seed, timeout=300.0)
+        res = fm.run(p, _job, chunk, seed=seed, timeout=120.0 * fm.load_factor())
         if res.ok:
             segs = [res.segments(r) for r in range(p)]
             for ci in range(len(chunk)):
@@ -287,7 +287,7 @@ NPOST = {"int": 2, "float": 2, "npfloat": 2, "list": 2, "ndarray": 3, "ndarray0"
 def _observe(case, seed):
     """one real run on its own: the GLOBAL order in which the hub fired rendezvous and collectives"""
     p = len(case["counts"])
-    res = fm.run(p, _job, [case], seed=seed, timeout=120.0)
+    res = fm.run(p, _job, [case], seed=seed, timeout=60.0 * fm.load_factor())
     if not res.ok:
         return None
     obs = []
